@@ -27,7 +27,7 @@ KINDS = ['seq', 'seq', 'seq', 'seq', 'operator', 'compress', 'hosvd', 'aca', 'gr
 
 def cases(tier, seed):
     variant = os.environ.get('VERIF_VARIANT', 'plain')
-    n = {'quick': 1600, 'thorough': 50000}[tier]
+    n = {'quick': 1600, 'thorough': 300000}[tier]
     if variant != 'plain': n = 1500
     for i in range(n):
         yield {'kind': KINDS[i % len(KINDS)], 'seed': seed, 'idx': i}
@@ -170,6 +170,8 @@ def _seq(rec, case, rng):
         if not hasattr(T, 'shape') or np.ndim(A) == 0:
             break
         tk = type(T).__name__
+        if tk == 'CanonicalTensor' and getattr(T, 'R', 1) ** max(1, T.ndim) > 200000:
+            rec.count('seq:stopped_at_rank_growth'); break      # mixed-format arithmetic would build a Tucker core with R^d entries
         ops = ['neg', 'add', 'sub', 'getitem', 'getitem', 'nway', 'ravel']
         if tk in ('CanonicalTensor', 'TuckerTensor'): ops += ['copy', 'squeeze', 'norm', 'addnd']
         if tk == 'TuckerTensor': ops += ['orthogonalize', 'truncate_full', 'compress0', 'to_canonical', 'pad', 'join']
